@@ -716,14 +716,6 @@ class C14(Prop):
         if not ok:
             res.error = msg
             return res
-        # the case files import the regenerated tables
-        import os
-        vo = os.path.join(core.COQ, "Gen", "C14", "Tables.vo")
-        if not os.path.exists(vo):
-            rc, so, se, cmd = core.coqc("Gen/C14/Tables.v")
-            if rc != 0:
-                res.error = "Gen/C14/Tables.v does not compile: %s" % se[-500:]
-                return res
         cases = self.gen_cases(ctx)
         lines = []
         meta = []
@@ -755,9 +747,9 @@ class C14(Prop):
         nsh = min(16, max(1, len(lines) // 6))
         for s in range(nsh):
             chunk = lines[s::nsh]
-            body = ["From Coq Require Import ZArith List Bool.",
-                    "From CB Require Import Proofs.C14_IEval Gen.C14.Tables.",
-                    "Import ListNotations.",
+            # the tables are inlined (same text as Gen/C14/Tables.v) so that the case files do not depend
+            # on a .vo that a concurrent run may be regenerating
+            body = [emit_tables(t["hexT"], t["hexE"], t["quadS"], t["quadE"], t["K"]),
                     "Definition cases : list (nat * bool) := [", ";\n".join(chunk), "].",
                     "Eval vm_compute in (map fst (filter (fun c => negb (snd c)) cases))."]
             shards.append(("cases_%d" % s, "\n".join(body) + "\n"))
